@@ -218,11 +218,9 @@ ref_verify(const uint8_t *pkt, size_t size, const uint8_t *secret, size_t slen, 
 	}
 	if (nma > 1) unspec = 1;
 	if (nma >= 1) {
-		uint8_t mac[16];
-		uint8_t *tmp = (uint8_t *)malloc(L);
+		uint8_t mac[16]; static uint8_t tmp[4096];
 		memcpy(tmp, pkt, L); memcpy(tmp + 4, ra, 16); memset(tmp + ma_off, 0, 16);
 		rhmac_md5(secret, slen, tmp, L, mac);
-		free(tmp);
 		if (0 != memcmp(mac, pkt + ma_off, 16)) { *why = "message-authenticator"; return (R_REJECT); }
 	}
 	if (1 != code) {
@@ -394,20 +392,20 @@ out:
 }
 
 /* ------------------------------------------------------------------ target 2: receiver decisions on RFC-built packets */
+/* `scratch` is an exact-size heap block (redzone right behind the received bytes), reused within one case;
+ * verify un-hides the password in place, so the library always works on a fresh copy */
 static int
-lib_decide(const uint8_t *bytes, size_t size, const uint8_t *secret, size_t slen, rad_pkt_hdr_p req, int *rc_chk, int *rc_ver) {
-	uint8_t *c = (uint8_t *)vh_dup(bytes, size); uint8_t *k = (uint8_t *)vh_dup(secret, slen); int a;
+lib_decide(uint8_t *scratch, const uint8_t *bytes, size_t size, uint8_t *key, size_t slen, rad_pkt_hdr_p req, int *rc_chk, int *rc_ver) {
+	memcpy(scratch, bytes, size);
 	*rc_ver = -999;
-	*rc_chk = radius_pkt_chk((rad_pkt_hdr_p)c, size);
-	if (0 == *rc_chk) *rc_ver = radius_pkt_verify((rad_pkt_hdr_p)c, k, slen, req);
-	a = (0 == *rc_chk && 0 == *rc_ver);
-	free(c); free(k);
-	return (a);
+	*rc_chk = radius_pkt_chk((rad_pkt_hdr_p)scratch, size);
+	if (0 == *rc_chk) *rc_ver = radius_pkt_verify((rad_pkt_hdr_p)scratch, key, slen, req);
+	return (0 == *rc_chk && 0 == *rc_ver);
 }
 
 static void
 case_verify(int code_i, int sidx, const int *seq, int len, int add_ma) {
-	model_t m; uint8_t req20[20], *base, *work; rad_pkt_hdr_p req; size_t ref_len, pw_off, ma_off, i; int rc_chk, rc_ver, la, rd, k, w, fails_before; const char *why;
+	model_t m; uint8_t req20[20], *base, *work, *scratch = NULL, *keydup = NULL; rad_pkt_hdr_p req; size_t ref_len, pw_off, ma_off, i; int rc_chk, rc_ver, la, rd, k, w, fails_before; const char *why;
 	const uint8_t *secret = SECRET_BYTES[sidx]; size_t slen = SECRET_LEN[sidx]; static const int MASKS[8] = { 0x01, 0x80, 0x02, 0x04, 0x08, 0x10, 0x20, 0x40 };	/* quick: the first two; thorough: every single-bit flip */
 	int nmasks = vh_thorough ? 8 : 2;
 	int covered_all;
@@ -435,13 +433,14 @@ case_verify(int code_i, int sidx, const int *seq, int len, int add_ma) {
 	/* every single-byte corruption.  Everything is covered by an authenticator unless this is an Access-Request:
 	 * there only the Message-Authenticator (if present) protects the packet. */
 	covered_all = (1 != m.code);
+	scratch = (uint8_t *)malloc(ref_len); keydup = (uint8_t *)vh_dup(secret, slen);
 	PHASE("corruption");
 	for (i = 0; i < ref_len; i ++) {
 		for (k = 0; k < nmasks; k ++) {
 			base[i] ^= (uint8_t)MASKS[k];
 			cur.c_off = i; cur.c_mask = MASKS[k]; vh_desc_set = 0;
 			rd = ref_verify(base, ref_len, secret, slen, req ? req20 + 4 : NULL, &why);
-			la = lib_decide(base, ref_len, secret, slen, req, &rc_chk, &rc_ver);
+			la = lib_decide(scratch, base, ref_len, keydup, slen, req, &rc_chk, &rc_ver);
 			n_corruptions ++;
 			if (R_UNSPEC == rd) n_corr_unspec ++;
 			else if (R_REJECT == rd) { n_corr_ref_reject ++; if (la) vh_fail("accepts-corrupted-packet", "chk=%d verify=%d; the reference rejects it (%s)", rc_chk, rc_ver, why); }
@@ -461,7 +460,7 @@ case_verify(int code_i, int sidx, const int *seq, int len, int add_ma) {
 		else { if (0 == slen) continue; wl = slen - 1; memcpy(ws, secret, wl); }
 		if (wl == slen && 0 == memcmp(ws, secret, wl)) continue;
 		rd = ref_verify(base, ref_len, ws, wl, req ? req20 + 4 : NULL, &why);
-		la = lib_decide(base, ref_len, ws, wl, req, &rc_chk, &rc_ver);
+		{ uint8_t *wk = (uint8_t *)vh_dup(ws, wl); la = lib_decide(scratch, base, ref_len, wk, wl, req, &rc_chk, &rc_ver); free(wk); }
 		n_wrong_secret ++;
 		if (R_ACCEPT == rd) n_ws_ref_accept ++;
 		if (R_REJECT == rd && la) vh_fail("accepts-wrong-secret", "chk=%d verify=%d with a different secret (%zu bytes)", rc_chk, rc_ver, wl);
@@ -470,7 +469,7 @@ case_verify(int code_i, int sidx, const int *seq, int len, int add_ma) {
 	}
 	if (vh_case_failed == fails_before) vh_nontrivial();
 out:
-	free(base); free(req);
+	free(base); free(req); free(scratch); free(keydup);
 }
 
 /* ------------------------------------------------------------------ target 3: the password functions directly */
@@ -521,12 +520,14 @@ password_cases(void) {
 static void
 enumerate(int maxlen, void (*fn)(int, int, const int *, int, int), int emit) {
 	int code_i, sidx, len, seq[3], add_ma, i; uint32_t c, tot;
+	/* the sequence is the innermost loop so that consecutive case numbers (= shards) see all kinds of packets */
 	for (code_i = 0; code_i < 6; code_i ++) for (len = 0; len <= maxlen; len ++) {
 		for (tot = 1, i = 0; i < len; i ++) tot *= A_COUNT;
-		for (c = 0; c < tot; c ++) {
-			uint32_t t = c; int has_ma = 0;
-			for (i = 0; i < len; i ++) { seq[i] = (int)(t % A_COUNT); t /= A_COUNT; if (A_MA == seq[i]) has_ma = 1; }
-			for (sidx = 0; sidx < NSECRETS; sidx ++) for (add_ma = 0; add_ma <= (has_ma ? 0 : 1); add_ma ++) {
+		for (sidx = 0; sidx < NSECRETS; sidx ++) for (add_ma = 0; add_ma <= 1; add_ma ++) {
+			for (c = 0; c < tot; c ++) {
+				uint32_t t = c; int has_ma = 0;
+				for (i = 0; i < len; i ++) { seq[i] = (int)(t % A_COUNT); t /= A_COUNT; if (A_MA == seq[i]) has_ma = 1; }
+				if (has_ma && add_ma) continue;	/* sign(add_msg_authr=1) fails with EEXIST by contract */
 				if (!emit) { fn(code_i, sidx, seq, len, add_ma); continue; }
 				/* --selftest: print the spec and the reference-built packet for the Python cross-check */
 				{
